@@ -232,7 +232,7 @@ def ref_type(e):
     if k == "@bool":
         return ["@unit", 2]
     if k == "@fndfg":
-        return ["@fn", list(e[1]), [e[1][i] for i in e[2]], list(e[3]) if len(e) > 3 else []]
+        return ["@fn", list(e[1]), B.fn_outs(e), list(e[3]) if len(e) > 3 else []]
     if k == "@vfn":
         return ["@fn", list(e[1]), list(e[2]), list(e[3])]
     if k == "@vext":
@@ -304,6 +304,8 @@ def ref_wf(e):
         return e[1] < e[2]
     if k == "@vext":
         return not is_rowvar(e[2])
+    if k == "@fndfg" and len(e) > 4 and e[4] == "loop":
+        return False  # the specification gives a function constant a type only for DFG / FuncDefn roots
     return True
 
 
@@ -361,6 +363,18 @@ def j_fn_type(doc):
     else:
         return None
     return {"t": "G", "input": s["input"], "output": s["output"], "runtime_reqs": s.get("runtime_reqs", [])}
+
+
+def j_body_sig(doc):
+    """The signature of the body of a function constant as the property asks for it: `mono_fn_type` where the
+    specification defines it; for a body rooted at a TailLoop the signature of the loop's body (inputs ->
+    Sum(just_inputs, just_outputs) + rest)."""
+    root = doc["nodes"][0]
+    if root["op"] == "TailLoop":
+        ji, jo, rest = root["just_inputs"], root["just_outputs"], root["rest"]
+        return {"t": "G", "input": ji + rest, "output": [{"t": "Sum", "s": "General", "rows": [ji, jo]}] + rest,
+                "runtime_reqs": root.get("extension_delta", [])}
+    return j_fn_type(doc)
 
 
 def j_type_of(v):
@@ -498,6 +512,11 @@ FIXED = [
     ["@vext", "c", ["@rowvar", 0, "@A"], ["@json", None], []],
     ["@vtuple", [["@vext", "c", ["@rowvar", 0, "@A"], ["@json", None], []]]],
     ["@fndfg", [], [], []], ["@fndfg", ["@qubit", ["@unit", 2]], [1, 0], []], ["@fndfg", ["@usize"], [0], ["e", "ext.β"]],
+    # bodies rooted at a FuncDefn (valid) and at a standalone TailLoop (the builder allows it; the specification has no
+    # type for it: only "the signature of its body" is asked of it)
+    ["@fndfg", [], [], [], "func"], ["@fndfg", ["@qubit", ["@unit", 2]], [1, 0], [], "func"],
+    ["@fndfg", [["@unit", 2]], [0], [], "loop"], ["@fndfg", ["@qubit", ["@unit", 2]], [0, 1], [], "loop"],
+    ["@vtuple", [["@fndfg", [["@unit", 2]], [0], [], "loop"]]],
     ["@array", [], "@qubit"], ["@list", [], ["@fn", [], [], []]], ["@sarray", [], ["@unit", 2], ""],
     ["@sarray", [], "@qubit", "n"],
     ["@array", [["@array", [["@some", [["@int", 3, 2]]]], ["@sum", [[], [B.std_type("int", ["@nat", 2])]]]]],
@@ -811,8 +830,18 @@ def run_impl(spec):
     raise ValueError(k)
 
 
+def _has_loop_fn(e):
+    if isinstance(e, list):
+        if e and e[0] == "@fndfg" and len(e) > 4 and e[4] == "loop":
+            return True
+        return any(_has_loop_fn(x) for x in e)
+    return False
+
+
 def payload(spec):
     k = spec["k"]
+    if "e" in spec and _has_loop_fn(spec["e"]):
+        return None  # a body rooted at a TailLoop is no function constant of the specification: oracle only
     try:
         if k == "val":
             return "val.all", B.value_sexp(spec["e"])
@@ -964,7 +993,7 @@ def _check_node(e, fails):
     if k in ("@fndfg", "@vfn"):
         if tspec != want_t:
             fails.append(Failure(site, "function-type-not-body-signature", f"{B.spec_sexp(tspec)[:200]}"))
-        ft = j_fn_type(j.get("hugr", {"nodes": [{"op": "?"}]}))
+        ft = j_body_sig(j.get("hugr", {"nodes": [{"op": "?"}]}))
         if ft is None or jt_norm(ft) != jt_norm(tj):
             fails.append(Failure(site, "function-type-not-serialised-body-signature", ""))
     # (4) std constants
